@@ -216,7 +216,7 @@ func c14RuleCase(r *rand.Rand) string {
 		}
 		if r.Intn(6) == 0 {
 			c.Dates = []string{pick(r, []string{"2023-06-15", "2023-06-16", "2023-06-18"})}
-		} else if r.Intn(4) == 0 {
+		} else if r.Intn(2) == 0 {
 			for k := 0; k < 1+r.Intn(2); k++ {
 				c.Dates = append(c.Dates, time.Unix(day0+int64(r.Intn(7))*86400, 0).UTC().Format("2006-01-02"))
 			}
